@@ -18,13 +18,15 @@
      future_version_*         newer, unknown versions are rejected with FlowReadException naming the version   *)
 EXTENDS Verif
 
-MonInit == [bad |-> <<>>, wit |-> {}, src |-> "none", ver |-> "", t |-> ""]
+MonInit == [bad |-> <<>>, wit |-> {}, src |-> "none", ver |-> "", ts |-> <<>>]
+\* signature feature: the type of the record the reader stopped at (the one after the n flows it yielded)
+TypeAt(m, n) == IF n + 1 <= Len(m.ts) THEN m.ts[n + 1] ELSE m.ts[Len(m.ts)]
 
 LoadedClause(m, ev) ==
   IF m.src \in {"dump", "synthetic", "current"} THEN
-       IF ev.end # "clean" THEN <<"C38.old_version_not_loaded", m.t, ev.exc>>
-       ELSE IF ev.n = 0 THEN <<"C38.old_version_not_loaded", m.t, "no flows">>
-       ELSE IF ~ev.cur THEN <<"C38.old_version_not_loaded", m.t, "not current">>
+       IF ev.end # "clean" THEN <<"C38.old_version_not_loaded", TypeAt(m, ev.n), ev.exc>>
+       ELSE IF ev.n = 0 THEN <<"C38.old_version_not_loaded", TypeAt(m, 0), "no flows">>
+       ELSE IF ~ev.cur THEN <<"C38.old_version_not_loaded", TypeAt(m, 0), "not current">>
        ELSE <<>>
   ELSE IF m.src = "future" THEN
        IF ev.end = "clean" THEN <<"C38.future_version_accepted">>
@@ -35,18 +37,18 @@ LoadedClause(m, ev) ==
 
 MonStep(m, ev) ==
   IF ev.k = "input" THEN
-     [m EXCEPT !.src = ev.src, !.ver = ev.ver, !.t = ev.t, !.wit = @ \cup {ev.src, ev.ver, ev.t}]
+     [m EXCEPT !.src = ev.src, !.ver = ev.ver, !.ts = Append(@, ev.t), !.wit = @ \cup {ev.src, ev.ver, ev.t}]
   ELSE IF ev.k = "step" THEN
      [m EXCEPT !.wit = @ \cup {ev.from}]
   ELSE IF ev.k = "migrated" THEN
-     [m EXCEPT !.bad = IF m.src = "current" /\ ev.a # ev.b THEN <<"C38.current_state_changed", m.t>> ELSE <<>>,
+     [m EXCEPT !.bad = IF m.src = "current" /\ ev.a # ev.b THEN <<"C38.current_state_changed", m.ts[Len(m.ts)]>> ELSE <<>>,
                !.wit = @ \cup {"migrate_identity"}]
   ELSE IF ev.k = "loaded" THEN
      [m EXCEPT !.bad = LoadedClause(m, ev),
                !.wit = @ \cup (IF ev.end = "clean" THEN {"loaded_clean"} ELSE {"rejected"})]
   ELSE IF ev.k = "resaved" THEN
      [m EXCEPT !.bad = IF m.src \in {"dump", "synthetic", "current"} /\ (ev.end # "clean" \/ ev.a # ev.b)
-                       THEN <<"C38.resave_not_fixpoint", m.t>> ELSE <<>>,
+                       THEN <<"C38.resave_not_fixpoint", m.ts[1]>> ELSE <<>>,
                !.wit = @ \cup {"resaved"}]
   ELSE m
 Wit(m) == m.wit
